@@ -6,6 +6,7 @@ import Driver.ProcStream
 import Driver.RegStream
 import Driver.EngineStream
 import Driver.ClusterStream
+import Driver.RespStream
 /-
 hwdriver: reads
     stream <name>
@@ -27,9 +28,11 @@ def dispatch (stream : String) : Option (String → String → CaseOut) :=
   | "hostile" => some hostileCase
   | "sched" => some schedCase
   | "proc" => some procCase
+  | "mwopts" => some mwOptsCase
   | "reg" => some regSeqCase
   | "engine" => some engineCase
   | "members" => some membersCase
+  | "resp" => some respCase
   | "provider" => some providerCase
   | "regsched" => some regSchedCase
   | _ => none
